@@ -19,13 +19,25 @@ class Model:
             self.mand = None  # trait default: false
         self.conds = generic_conditions(fx)
 
-    def row(self, v):
-        p = peval.eval_table_fn(self.prec, v)
+    def table(self, body, v):
+        """value of a table method (precedence / associativity / mandatory_parentheses) on the abstract node v: by symbolic evaluation on the
+        concrete constructor tree (match arms, guards, helper functions are all decided there), with the pattern evaluator as fallback"""
         try:
-            a = peval.eval_table_fn(self.assoc, v)
-        except AnalysisGap:
-            raise
-        m = peval.eval_table_fn(self.mand, v) if self.mand is not None else ("lit", False)
+            t = sym.Eval(self.fx, inline_depth=0).function(body, [("ctor", "Format", (("0", to_term(v)),))])
+            if t[0] == "lit" and isinstance(t[1], (int, bool)):
+                return ("lit", t[1])
+            if t[0] == "ctor" and not t[2] and "::" in t[1]:
+                return ("variant", t[1].split("::")[0], t[1].split("::")[1])
+            if t[0] == "panic":
+                return ("panic",)
+        except (AnalysisGap, KeyError, IndexError, TypeError):
+            pass
+        return peval.eval_table_fn(body, v)
+
+    def row(self, v):
+        p = self.table(self.prec, v)
+        a = self.table(self.assoc, v)
+        m = self.table(self.mand, v) if self.mand is not None else ("lit", False)
         return {"prec": p[1] if p[0] == "lit" else None, "assoc": a[2] if a[0] == "variant" else ("panic" if a == ("panic",) else None),
                 "mand": m[1] if m[0] == "lit" else None}
 
@@ -48,6 +60,22 @@ class Model:
         if len(set(taken)) != 1:
             raise AnalysisGap("the operand `%s` is written %d times (or with both shapes) for one (parent, child) row" % (pos, len(taken)))
         return taken[0]
+
+
+_OPAQUE = [0]
+
+
+def to_term(v):
+    """abstract node value (peval) -> constructor term for the symbolic evaluator; unspecified fields are opaque parameters"""
+    if v[0] == "adt":
+        name = "%s::%s" % (v[1], v[2]) if v[2] else v[1]
+        return ("ctor", name, tuple(sorted((k, to_term(x)) for k, x in v[3].items())))
+    if v[0] in ("int", "str", "bool"):
+        return ("lit", v[1])
+    if v[0] == "list":
+        return ("list", tuple(("param", "$item%d" % i) for i in range(v[1])))
+    _OPAQUE[0] += 1
+    return ("param", "$any%d" % _OPAQUE[0])
 
 
 def generic_conditions(fx):
